@@ -58,9 +58,11 @@ MemPerDev(p, n) == IF P(p).gpuMem > 0 THEN P(p).gpuMem ELSE (P(p).frac * N(n).gp
 GpuMilliOn(p, gmem) ==
   IF ~IsSharing(p) THEN P(p).gpu * 1000
   ELSE P(p).devs * (IF P(p).gpuMem > 0 THEN (P(p).gpuMem * 1000) \div gmem ELSE P(p).frac * 10)
-\* every scenario uses one GPU memory size for all GPU nodes
-ScenGpuMem == LET g == {N(n).gpuMem : n \in {m \in Nodes : N(m).gpus > 0}} IN IF g = {} THEN 1 ELSE CHOOSE x \in g : TRUE
-GpuMilli(p) == GpuMilliOn(p, ScenGpuMem)
+\* a gpu-memory request is a different portion of a device on nodes whose devices differ: the amount a pod is
+\* charged with depends on the node it is placed on (n = 0: not placed - only meaningful for non-sharing pods)
+GpuMilliAt(p, n) == GpuMilliOn(p, IF n \in Nodes THEN N(n).gpuMem ELSE 1)
+GpuMilli(p) == GpuMilliOn(p, 1)          \* for pods that are not sharing (independent of the node)
+GpuReq(p) == P(p).gpu > 0 \/ IsSharing(p)
 
 (***************************************************************************)
 (* Ground truth at cycle start and after the decisions so far              *)
@@ -210,7 +212,9 @@ Relevant(x) == BindOK(x) \/ Piped(x) \/ EvictOK(x)
 LastRel(p, i) == LET xs == {x \in 1..i : D[x].p = p /\ Relevant(x)} IN IF xs = {} THEN 0 ELSE Max(xs)
 ChargedAfter(i) ==
   {p \in Pods : LET x == LastRel(p, i) IN IF x = 0 THEN ActiveAtStart(p) ELSE ~EvictOK(x)}
-QGpu(q, i, np) == Sum({p \in ChargedAfter(i) : InSubtree(p, q) /\ (np => J(JobOf(p)).preempt = 0)}, GpuMilli)
+\* the node a charged pod is on after the first i decisions: its newest placement, else where it was at cycle start
+NodeAfter(p, i) == LET x == LastRel(p, i) IN IF x = 0 \/ EvictOK(x) THEN S[p].node ELSE D[x].n
+QGpu(q, i, np) == Sum({p \in ChargedAfter(i) : InSubtree(p, q) /\ (np => J(JobOf(p)).preempt = 0)}, LAMBDA p : GpuMilliAt(p, NodeAfter(p, i)))
 QCpu(q, i, np) == Sum({p \in ChargedAfter(i) : InSubtree(p, q) /\ (np => J(JobOf(p)).preempt = 0)}, EffCpu)
 QMem(q, i, np) == Sum({p \in ChargedAfter(i) : InSubtree(p, q) /\ (np => J(JobOf(p)).preempt = 0)}, LAMBDA p : P(p).mem)
 \* C08 judges DECISIONS: a statement is decided as a whole (victims + placements). When the API call
@@ -221,7 +225,8 @@ EvictDecidedIn(x, s) == D[x].k = "evict" /\ s # 0 /\ D[x].stmt = s
 LastRelIn(p, i) == LET xs == {x \in 1..i : D[x].p = p /\ (Relevant(x) \/ EvictDecidedIn(x, D[i].stmt))} IN IF xs = {} THEN 0 ELSE Max(xs)
 ChargedDecided(i) ==
   {p \in Pods : LET x == LastRelIn(p, i) IN IF x = 0 THEN ActiveAtStart(p) ELSE D[x].k # "evict"}
-DGpu(q, i, np) == Sum({p \in ChargedDecided(i) : InSubtree(p, q) /\ (np => J(JobOf(p)).preempt = 0)}, GpuMilli)
+NodeDecided(p, i) == LET x == LastRelIn(p, i) IN IF x = 0 \/ D[x].k = "evict" THEN S[p].node ELSE D[x].n
+DGpu(q, i, np) == Sum({p \in ChargedDecided(i) : InSubtree(p, q) /\ (np => J(JobOf(p)).preempt = 0)}, LAMBDA p : GpuMilliAt(p, NodeDecided(p, i)))
 DCpu(q, i, np) == Sum({p \in ChargedDecided(i) : InSubtree(p, q) /\ (np => J(JobOf(p)).preempt = 0)}, EffCpu)
 DMem(q, i, np) == Sum({p \in ChargedDecided(i) : InSubtree(p, q) /\ (np => J(JobOf(p)).preempt = 0)}, LAMBDA p : P(p).mem)
 Raises(i) == (BindOK(i) \/ Piped(i)) /\ D[i].p \notin ChargedAfter(i - 1)
@@ -230,13 +235,13 @@ LastD == Len(D)
 C08_Limit ==
   (LastD > 0 /\ Raises(LastD)) =>
     \A q \in Ancestors(J(JobOf(D[LastD].p)).queue) :
-      /\ (Q(q).gl # -1 /\ GpuMilli(D[LastD].p) > 0) => DGpu(q, LastD, FALSE) <= Q(q).gl
+      /\ (Q(q).gl # -1 /\ GpuReq(D[LastD].p)) => DGpu(q, LastD, FALSE) <= Q(q).gl
       /\ (Q(q).cl # -1 /\ EffCpu(D[LastD].p) > 0)   => DCpu(q, LastD, FALSE) <= Q(q).cl
       /\ (Q(q).ml # -1 /\ P(D[LastD].p).mem > 0)   => DMem(q, LastD, FALSE) <= Q(q).ml
 C08_NonPreemptibleQuota ==
   (LastD > 0 /\ Raises(LastD) /\ J(JobOf(D[LastD].p)).preempt = 0) =>
     \A q \in Ancestors(J(JobOf(D[LastD].p)).queue) :
-      /\ (Q(q).gq # -1 /\ GpuMilli(D[LastD].p) > 0) => DGpu(q, LastD, TRUE) <= Q(q).gq
+      /\ (Q(q).gq # -1 /\ GpuReq(D[LastD].p)) => DGpu(q, LastD, TRUE) <= Q(q).gq
       /\ (Q(q).cq # -1 /\ EffCpu(D[LastD].p) > 0)   => DCpu(q, LastD, TRUE) <= Q(q).cq
       /\ (Q(q).mq # -1 /\ P(D[LastD].p).mem > 0)   => DMem(q, LastD, TRUE) <= Q(q).mq
 
@@ -364,7 +369,7 @@ TakenFrom(s, x) == {D[y].p : y \in {z \in TakingEvicts : D[z].stmt = s /\ InSubt
 AboveAfterOthers(s, x, j) ==
   LET b  == FirstOfStmt(s) - 1
       others == {p \in TakenFrom(s, x) : JobOf(p) # j}
-      g  == QGpu(x, b, FALSE) - Sum(others, GpuMilli)
+      g  == QGpu(x, b, FALSE) - Sum(others, LAMBDA p : GpuMilliAt(p, NodeAfter(p, b)))
       c  == QCpu(x, b, FALSE) - Sum(others, EffCpu)
       m  == QMem(x, b, FALSE) - Sum(others, LAMBDA p : P(p).mem)
   IN ~(/\ (Q(x).gq = -1 \/ g <= Q(x).gq) /\ (Q(x).cq = -1 \/ c <= Q(x).cq) /\ (Q(x).mq = -1 \/ m <= Q(x).mq)
@@ -402,7 +407,7 @@ AsSaturated(aR, fR, aS, fS, slack) ==
 SaturationBroken(s, a, x) ==
   LET e   == LastOfStmt(s)
       inv == ReclaimerPods(s) \cup TakenFrom(s, x)
-  IN \/ /\ \E p \in inv : GpuMilli(p) > 0
+  IN \/ /\ \E p \in inv : GpuReq(p)
         /\ AsSaturated(QGpu(a, e, FALSE), qi.q[a].fsG, QGpu(x, e, FALSE), qi.q[x].fsG,
                        IF qi.q[a].xG = 1 /\ qi.q[x].xG = 1 THEN 0 ELSE 1)
      \/ /\ \E p \in inv : EffCpu(p) > 0
@@ -795,7 +800,7 @@ C14_SnapshotNodeGpu ==
     /\ qi.n[n].rg = 1000 * (Sum(Terminating(n), Whole) + Cardinality(GroupsReleasing(n)))
 \* the scheduler accounts the portion of a shared-GPU pod in 1/100 GPU (rounded half up)
 Centi(m) == ((m + 5) \div 10) * 10
-AccGpu(q, np) == Sum({p \in ChargedAfter(0) : InSubtree(p, q) /\ (np => J(JobOf(p)).preempt = 0)}, LAMBDA p : Centi(GpuMilli(p)))
+AccGpu(q, np) == Sum({p \in ChargedAfter(0) : InSubtree(p, q) /\ (np => J(JobOf(p)).preempt = 0)}, LAMBDA p : Centi(GpuMilliAt(p, NodeAfter(p, 0))))
 C14_SnapshotQueues ==
   AtSessionOpen => \A q \in Queues : qi.q[q].present = 1 =>
     /\ qi.q[q].allocG = AccGpu(q, FALSE)
@@ -840,7 +845,7 @@ C14_EndNodeMem == (AtSessionEnd /\ ~NominatedEvicted) => EndNodeMemOK
 \* pod that holds nothing (known finding)
 C14_EndNodeAfterNominatedEviction == (AtSessionEnd /\ NominatedEvicted) => (EndNodeCpuOK /\ EndNodeMemOK)
 \* queues are charged for what is allocated or nominated and not (being) evicted
-AccGpuEnd(q, np) == Sum({p \in ChargedAfter(Len(D)) : InSubtree(p, q) /\ (np => J(JobOf(p)).preempt = 0)}, LAMBDA p : Centi(GpuMilli(p)))
+AccGpuEnd(q, np) == Sum({p \in ChargedAfter(Len(D)) : InSubtree(p, q) /\ (np => J(JobOf(p)).preempt = 0)}, LAMBDA p : Centi(GpuMilliAt(p, NodeAfter(p, Len(D)))))
 C14_EndQueues ==
   AtSessionEnd => \A q \in Queues : qe.q[q].present = 1 =>
     /\ qe.q[q].allocC = QCpu(q, Len(D), FALSE)
